@@ -230,14 +230,15 @@ func (r *run) callerLoop(c *callerState, ready chan struct{}) {
 // A result is fully determined by (kind, token p); what identifies the caller sits in a LATE place:
 //   obj     p even: pong{msg_id 77, ping_id p}; p odd: msgs_detailed_info{71, 72, 73, status p}; ping: always pong
 //   bool    p & 1
-//   vec*    length class p mod 5 -> 1, 2, 17, 0, 1500 elements (1500 ints = 6 kB: gzip bodies above the
-//           4096-byte buffer of popMessageAsBytes); elements 7000+i (objects: 7000+i, 8000+i, 9000+i), the LAST one carries p
+//   vec*    length class p mod 7 -> 1, 2, 17, 0, 1500, 9000, 20000 elements (1500 ints = 6 kB: gzip bodies above the
+//           4096-byte buffer of popMessageAsBytes; 9000 ints = 36 kB and 20000 = 80 kB: above the 32 KiB window in
+//           which compress/flate hands out inflated data, a single Read never returns more); elements 7000+i (objects: 7000+i, 8000+i, 9000+i), the LAST one carries p
 //   err     rpc_error{400 + p mod 100, "VERIF_<p>"}
 // showResult prints kind:token only if EVERY element / field it got back equals what that token stands for.
 
-var vecLens = []int{1, 2, 17, 0, 1500}
+var vecLens = []int{1, 2, 17, 0, 1500, 9000, 20000}
 
-func vecLen(p int64) int { return vecLens[((p%5)+5)%5] }
+func vecLen(p int64) int { return vecLens[((p%7)+7)%7] }
 
 func bareVec32(p int64) []int32 {
 	v := make([]int32, vecLen(p))
